@@ -16,7 +16,7 @@
    tombstoned document (statement without it: C18_Refuted.resync_tombstone_eq_fresh_refuted);
    [coherent]: before the resync every computed set stored in a principal document is the one the access
    views produce (that is property C03). *)
-From SG Require Import Base.Prelude C18.Resync C18.SetLemmas C18.ResyncProofs C18.ReplayProofs C18.AccessProofs C18.FinalProofs C18.Concurrent.
+From SG Require Import Base.Prelude C18.Resync C18.SetLemmas C18.ResyncProofs C18.ReplayProofs C18.AccessProofs C18.FinalProofs C18.Concurrent C18.HistoryProofs.
 Open Scope N_scope.
 
 (* every live document's channel assignment is the one of the fresh database (and the trees coincide) *)
@@ -70,6 +70,35 @@ Theorem C18_resync_visible_eq_fresh :
     visible (fst (fst r)) (snd r) u = visible (replay empty sync_new [] ws) (invalidate_all (snd r)) (inval_user u).
 Proof. exact principals_visible. Qed.
 Print Assumptions C18_resync_visible_eq_fresh.
+
+(* the same, quantified over EVERY pre-state of the principals a deployment can be in: principals as created,
+   then ANY history [h] of document writes -- each invalidating, independently, the computed CHANNELS of the
+   principals whose access() grants it changes and the computed ROLES of the users whose role() grants it
+   changes (MarkPrincipalsChanged) -- and of user loads (which rebuild what is invalidated); i.e. every
+   combination of pending channel / role invalidations, users never loaded again before the resync ends
+   included.  After the resync each user's roles, effective channels and visible documents are those of the
+   fresh database. *)
+Theorem C18_resync_principals_eq_fresh :
+  forall (body : Type) (empty : body) (sync_old sync_new : body -> verdict) (h : list (pop body)) (ps0 : princs)
+         (fixed : switches) (ifixed regen : bool) (alloc : list N),
+  accepts empty sync_old (writes_of h) -> accepts empty sync_new (writes_of h) ->
+  tomb_agree empty sync_old sync_new (writes_of h) -> regen = false \/ ifixed = true ->
+  let st := hist empty sync_old (@nil (doc body), warm (@nil (doc body)) (invalidate_all ps0)) h in
+  let r := run sync_new fixed ifixed regen alloc (fst st) (snd st) in
+  forall u, In u (ps_users (snd r)) ->
+    seteq (user_rl (fst (fst r)) u) (user_rl (replay empty sync_new [] (writes_of h)) (inval_user u)) /\
+    seteq (effective (fst (fst r)) (snd r) u)
+          (effective (replay empty sync_new [] (writes_of h)) (invalidate_all (snd r)) (inval_user u)) /\
+    visible (fst (fst r)) (snd r) u = visible (replay empty sync_new [] (writes_of h)) (invalidate_all (snd r)) (inval_user u).
+Proof. exact principals_history. Qed.
+Print Assumptions C18_resync_principals_eq_fresh.
+
+(* every such history keeps the stored computed sets coherent (each is invalidated or what the views give) *)
+Theorem C18_history_coherent :
+  forall (body : Type) (empty : body) (sync : body -> verdict) (h : list (pop body)) (db : list (doc body)) (ps : princs),
+  coherent db ps -> coherent (fst (hist empty sync (db, ps) h)) (snd (hist empty sync (db, ps) h)).
+Proof. exact hist_coherent. Qed.
+Print Assumptions C18_history_coherent.
 
 (* running resync again changes nothing: no document is written, docs_changed = 0, principals untouched.
    Unconditional: any database, any function, either tree. *)
